@@ -42,17 +42,17 @@ func props() map[string]*propCfg {
 	add(&propCfg{ID: "C01", Level: "exploration", Families: []famWeight{{"frag", 1, false}}, QuickRuns: 4000, ThorSecs: 600})
 	add(&propCfg{ID: "C02", Level: "exploration", Families: []famWeight{{"frag", 2, false}, {"relay", 1, false}}, QuickRuns: 4000, ThorSecs: 600})
 	add(&propCfg{ID: "C03", Level: "exploration", Families: []famWeight{{"hostile", 3, false}, {"poison", 1, false}}, QuickRuns: 4000, ThorSecs: 600})
-	add(&propCfg{ID: "C04", Level: "exploration", Families: []famWeight{{"mesh", 2, false}, {"relay", 1, false}, {"apiconc", 1, false}}, QuickRuns: 4000, ThorSecs: 600, Race: true})
+	add(&propCfg{ID: "C04", Level: "exploration", Families: []famWeight{{"mesh", 2, false}, {"relay", 2, false}, {"apiconc", 1, false}}, QuickRuns: 4000, ThorSecs: 600, Race: true})
 	add(&propCfg{ID: "C05", Level: "exploration", Families: []famWeight{{"mesh", 2, false}, {"relay", 1, false}, {"dial", 1, false}, {"pressure", 1, false}}, QuickRuns: 4000, ThorSecs: 600})
 	add(&propCfg{ID: "C06", Level: "exploration", Families: []famWeight{{"codec6", 2, false}, {"mesh", 1, false}, {"frag", 1, false}}, QuickRuns: 4000, ThorSecs: 600})
 	add(&propCfg{ID: "C07", Level: "exploration", Families: []famWeight{{"close", 1, false}}, QuickRuns: 4000, ThorSecs: 600})
 	add(&propCfg{ID: "C08", Level: "exploration", Families: []famWeight{{"relay", 1, false}}, QuickRuns: 4000, ThorSecs: 600})
 	add(&propCfg{ID: "C09", Level: "exploration", Families: []famWeight{{"relay", 1, false}}, QuickRuns: 4000, ThorSecs: 600})
 	add(&propCfg{ID: "C10", Level: "exploration", Families: []famWeight{{"rawclient", 1, false}, {"relay", 1, false}}, QuickRuns: 4000, ThorSecs: 600})
-	add(&propCfg{ID: "C11", Level: "exploration", Families: []famWeight{{"mesh", 1, false}, {"relay", 1, false}, {"hostile", 1, false}, {"close", 1, false}, {"pressure", 1, false}, {"poison", 1, false}}, QuickRuns: 4000, ThorSecs: 600})
+	add(&propCfg{ID: "C11", Level: "exploration", Families: []famWeight{{"mesh", 1, false}, {"relay", 1, false}, {"hostile", 1, false}, {"close", 1, false}, {"pressure", 1, false}, {"poison", 1, false}, {"conns", 1, false}}, QuickRuns: 4000, ThorSecs: 600})
 	add(&propCfg{ID: "C12", Level: "exploration", Families: []famWeight{{"mesh", 1, false}, {"relay", 1, false}, {"hostile", 1, false}, {"frag", 1, false}, {"pressure", 1, false}, {"poison", 1, false}}, QuickRuns: 4000, ThorSecs: 600})
 	add(&propCfg{ID: "C13", Level: "fault_enumeration", Families: []famWeight{{"handshake", 1, true}}, QuickRuns: 0, ThorSecs: 0})
-	add(&propCfg{ID: "C14", Level: "exploration", Families: []famWeight{{"mesh", 1, false}, {"relay", 1, false}, {"cancel", 2, false}}, QuickRuns: 4000, ThorSecs: 600})
+	add(&propCfg{ID: "C14", Level: "exploration", Families: []famWeight{{"mesh", 1, false}, {"relay", 1, false}, {"cancel", 2, false}, {"pressure", 1, false}}, QuickRuns: 4000, ThorSecs: 600})
 	add(&propCfg{ID: "C15", Level: "exploration", Families: []famWeight{{"peers", 1, false}}, QuickRuns: 4000, ThorSecs: 600})
 	add(&propCfg{ID: "C16", Level: "exploration", Families: []famWeight{{"conns", 1, false}}, QuickRuns: 4000, ThorSecs: 600})
 	add(&propCfg{ID: "C17", Level: "fault_enumeration", Families: []famWeight{{"retry", 1, true}}, QuickRuns: 0, ThorSecs: 0})
